@@ -163,7 +163,7 @@ def search(rec, ctx):
     crng = ctx.rng("corpus")
     corp = [s for _, s in corpus.sample_statements(crng, 30 if ctx.thorough else 3, per_file=40 if ctx.thorough else 20) if len(s) < 1500]
 
-    drive(soup.soup, lambda s: check(rec, {"src": s, "stream": "soup"}), ctx.budget(20000, 400000), ctx.hseed("soup"))
+    drive(soup.soup, lambda s: check(rec, {"src": s, "stream": "soup"}), ctx.budget(12000, 400000), ctx.hseed("soup"))
 
     def mut(rnd):
         pool = seeds if rnd.random() < 0.5 or not corp else corp
@@ -180,6 +180,31 @@ def search(rec, ctx):
         check(rec, {"src": src, "stream": "g1-mutated"})
 
     drive(st.randoms(use_true_random=False), g1, ctx.budget(3000, 60000), ctx.hseed("g1"))
+
+    # construct-aware stream: short generated xonsh constructs / command lines / macros with 1-3 token edits
+    # (dense mutations inside the construct, where the hand-written builders of subheader.py take over)
+    ATOMS = ["'s'", "[1]", "None", "(b, c)", "1", "{}", "...", "f'{x}'", "-1", "lambda: 0", "$X", "$(ls)", "`a`", "p'q'", "x?", "@(y)", "![z]"]
+
+    def construct(rnd):
+        r = rnd.random()
+        if r < 0.45:
+            text = xonsh.sugar(rnd).text
+        elif r < 0.6:
+            text = xonsh.gen_cmd(rnd).text
+        elif r < 0.75:
+            c = xonsh.call_macro_case(rnd)
+            text = c["macro"]
+        elif r < 0.85:
+            text = xonsh.proc_macro_case(rnd)["text"]
+        else:
+            text = xonsh.with_macro_case(rnd)["src"]
+        vocab = mutate.PY_VOCAB + mutate.XONSH_VOCAB + ATOMS + ATOMS
+        for _ in range(rnd.randint(1, 3)):
+            text, _op = mutate.mutate_tokens(rnd, text, vocab, 1)
+        ctxs = ["{}", "{}\n", "x = {}\n", "f({}, 1)\n", "if {}:\n    pass\n", "[{} for i in j]\n", "{}; y = 2\n"]
+        check(rec, {"src": ctxs[rnd.randrange(len(ctxs))].format(text) if "{" not in text and "}" not in text else text, "stream": "construct-mutation"})
+
+    drive(st.randoms(use_true_random=False), construct, ctx.budget(16000, 400000), ctx.hseed("construct"))
 
     for s in ctx.shard(seeds):
         check(rec, {"src": s, "stream": "xonsh-seed", "file": True})
